@@ -5,6 +5,8 @@
 //! Nothing here changes behaviour of the crate.
 use crate::parse::lex::token::{Lex, Token};
 use crate::parse::lex::tokenize;
+use crate::common::position::CaretPos;
+use crate::parse::lex::close_blocks;
 use crate::parse::lex::verif_hooks::{into_tokens, State};
 
 #[derive(Clone, Debug)]
@@ -54,6 +56,7 @@ pub fn lex(input: &str) -> Result<Vec<Tok>, (usize, usize, String)> {
 #[derive(Clone, Debug)]
 pub struct LexMachine {
     state: State,
+    last_end: Option<CaretPos>,
 }
 
 impl Default for LexMachine {
@@ -66,6 +69,7 @@ impl LexMachine {
     pub fn new() -> LexMachine {
         LexMachine {
             state: State::new(),
+            last_end: None,
         }
     }
 
@@ -77,6 +81,9 @@ impl LexMachine {
         while let Some(c) = it.next() {
             let tokens = into_tokens(c, &mut it, &mut self.state)
                 .map_err(|err| (err.pos.line, err.pos.pos, err.msg))?;
+            if let Some(lex) = tokens.last() {
+                self.last_end = Some(lex.pos.end);
+            }
             out.extend(tokens.iter().map(convert));
         }
         Ok(out)
@@ -84,7 +91,10 @@ impl LexMachine {
 
     /// What `tokenize` appends at end of input (before the Eof token).
     pub fn flush(&mut self) -> Vec<Tok> {
-        self.state.flush_indents().iter().map(convert).collect()
+        close_blocks(&mut self.state, self.last_end)
+            .iter()
+            .map(convert)
+            .collect()
     }
 
     pub fn key(&self) -> (i32, i32, bool, usize) {
